@@ -65,6 +65,12 @@ class Ref:
 
     def step(self, ev):
         d = []
+        if ev[0] == "emitj":
+            # the emission; from inside subscriber k's callback for it subscriber j joins (and misses the item in flight)
+            d = self.step(["emit", ev[1], ev[2]])
+            if any(x.startswith(f"{ev[3]}:N") for x in d):
+                d += self.step(["sub", ev[4]])
+            return d
         if ev[0] in ("sub", "subfin"):
             k = int(ev[1])
             if ev[0] == "subfin":
@@ -245,6 +251,25 @@ class C11(Prop):
                                     val += 1; evs.append(["emit", "0", N(val)])
                                 evs += [["q"], ["emit", "0", "c"], ["q"]]
                                 out.append(mk_case(kind, fl, ["hot"], evs, {"kind": kind + "-churn"}))
+        # a subscriber JOINS the shared observable from inside another subscriber's callback, in the middle of a broadcast
+        # (event `emitj 0 <item> k j`): the joiner waits in the inner subject's chamber — the broadcast goes on to everybody
+        # listed behind k, j misses the item in flight and gets every later one (seed C11-10: the join called retain() on
+        # the observers cell the broadcast holds)
+        for kind in ("share", "publish"):
+            for fl in ("local", "threads"):
+                for others in ([], ["1"], ["1", "2"]):
+                    for k in ["0"] + others[:1]:
+                        j = str(len(others) + 1) if len(others) < 2 else None
+                        if j is None:
+                            continue
+                        for churn in (False, True):
+                            evs = ([["connect"]] if kind == "publish" else []) + [["sub", "0"]] + [["sub", o] for o in others]
+                            evs.append(["emit", "0", N(1)])
+                            if churn and others:
+                                evs += [["unsub", others[-1]], ["sub", others[-1]]]
+                            evs.append(["emitj", "0", N(2), k, j])
+                            evs += [["emit", "0", N(3)], ["q"], ["unsub", k], ["emit", "0", N(4)], ["emit", "0", "c"], ["q"]]
+                            out.append(mk_case(kind, fl, ["hot"], evs, {"kind": kind + "-join-in-callback"}))
         # interleave (the runner shrinks only the first few hundred failures)
         rng.shuffle(out)
         return out + self.lock_cases(tier, seed)
